@@ -1,5 +1,5 @@
 import McpModel.Base.Proto
-import McpModel.Gate.Model
+import McpModel.Gate.Monitor
 /-!
 Driver for E3 `gate`: replays the harness's envelope descriptors on the admission model and evaluates
 the C06 / C02 monitors on the IMPLEMENTATION's observations.
@@ -14,21 +14,14 @@ obs:  `w=<none|ok|e<code>[:v1,v2..]|multiN|strayN> mw=<methods|-> uh=<handlers|-
 F34: the version a request's `_meta` names must be one the session's TRANSPORT serves (the `tr` record),
 the server/discover probe excepted; -32022 carries the transport's versions.
 
-The monitors are written from the property text (codes as literal numbers, the lifecycle methods
-named explicitly) and read the session state from the implementation's own observations; they do
-not consult the model's state.
+The monitors (`Monitor.monitor`, typed; this file keeps the token parser, the renderers and the clause
+texts) are written from the property text (codes as literal numbers, the lifecycle methods named
+explicitly) and read the session state from the implementation's own observations; they do not consult
+the model's state.  An observation field that is not in the canonical form the renderers produce is
+read as `W.other` / `Obs.unreadable`.
 -/
 namespace Gate
 open Proto Generated.Gate
-
-structure Msg where
-  side : String
-  mname : String
-  req : Req
-  muts : List String
-  deriving Repr
-
-def methodOfName (n : String) : Option Method := Method.all.find? (fun m => m.name == n)
 
 def parseShape : String → Option PShape
   | "absent" => some .absent | "null" => some .null | "ok" => some .objOk | "degraded" => some .objDegraded
@@ -75,9 +68,9 @@ def parseMsg : List String → Option Msg
     let lvl ← kv "lvl" lvl
     let muts ← kv "mut" mutTok
     let name := if meth == "%empty" then "" else meth
-    if side != "s" && side != "c" then none
+    let sd ← (if side == "s" then some Side.server else if side == "c" then some Side.client else none)
     if id != "id" && id != "noid" then none
-    pure { side := side, mname := name, muts := words muts,
+    pure { side := sd, mname := name, muts := words muts,
            req := { method := methodOfName name, hasId := id == "id", params := shape, «meta» := mt, tag := tag, iver := iver, lvl := lvl,
                     cancelIdBad := name == "notifications/cancelled" && (words muts).contains "requestId:wrong" } }
   | _ => none
@@ -97,13 +90,13 @@ def showAnswer : Answer → Option String
   | .some_answer => none
 
 /-- The user-level handler expected to run (harness configuration); `none`: not modelled. -/
-def expectedUH (side : String) (r : Req) : Outcome → Option String
+def expectedUH (side : Side) (r : Req) : Outcome → Option String
   | .invoked m res =>
     let feature (n : String) : Option String :=
       match r.params with
       | .objOk => some n
       | _ => none
-    if side == "s" then
+    if side == .server then
       match m with
       | .notifications_initialized => some (if res == .ok then "initialized" else "-")
       | .notifications_roots_list_changed => some "roots-changed"
@@ -150,160 +143,114 @@ def fillUH (model : Option String) (impl : Option String) : String :=
     | some u => if u == "-" || !(u.contains ',') then u else "-|<handler>"
     | none => "-|<handler>"
 
-/-! ## monitors -/
+/-! ## the string layer of the monitors -/
 
-structure Mon where
-  prevSt : String := "-/0/"      -- the implementation's session state after the previous envelope
-  dead : Bool := false            -- a crash / teardown was already reported in this case
-  /-- an earlier envelope of the case was an `initialize` ANSWERED WITH A RESULT, or carried complete
-  per-request metadata naming a supported version: only then may feature traffic be served. Kept from
-  what went over the wire, independently of what the implementation's session state claims. -/
-  opened : Bool := false
-  /-- the versions the case's transport serves: `filterSupportedVersions` of the predicate named by the
-  `tr` record (an INPUT of the case; a case without `tr` record runs on a transport that serves all) -/
-  tv : List String := supportedProtocolVersions
+def showW : W → String
+  | .none => "none"
+  | .ok => "ok"
+  | .err c none => s!"e{c}"
+  | .err c (some d) => s!"e{c}:{",".intercalate d}"
+  | .multi n => "multi" ++ n
+  | .stray n => "stray" ++ n
+  | .malformed => "malformed"
+  | .other => "?"
 
-def stInit (st : String) : Bool := !(st.startsWith "-/")
-def stInitd (st : String) : Bool := match st.splitOn "/" with | [_, d, _] => d == "1" | _ => false
+/-- `none|ok|e<code>[:v1,v2..]|multiN|strayN|malformed` (canonical text only). -/
+def parseW (w : String) : W :=
+  let cand : W :=
+    if w == "none" then .none
+    else if w == "ok" then .ok
+    else if w == "malformed" then .malformed
+    else if w.startsWith "multi" then .multi (w.drop 5).toString
+    else if w.startsWith "stray" then .stray (w.drop 5).toString
+    else if w.startsWith "e" then
+      match ((w.drop 1).toString).splitOn ":" with
+      | [c] => (match c.toInt? with | some n => .err n none | none => .other)
+      | [c, d] => (match c.toInt? with | some n => .err n (some (if d == "" then [] else d.splitOn ",")) | none => .other)
+      | _ => .other
+    else .other
+  if showW cand == w then cand else .other
 
-def specRemoved : List String :=
-  ["initialize", "ping", "notifications/initialized", "notifications/roots/list_changed", "logging/setLevel",
-   "resources/subscribe", "resources/unsubscribe"]
+def showSt (s : St) : String := s!"{s.init.getD "-"}/{if s.initd then 1 else 0}/{s.level}"
 
-def preInitAllowed : List String := ["initialize", "notifications/initialized", "ping", "notifications/cancelled"]
-def f4Methods : List String := ["logging/setLevel", "resources/subscribe", "resources/unsubscribe", "notifications/roots/list_changed"]
+/-- `<tag@ver|->/<0|1>/<level>` (canonical text only). -/
+def parseSt (t : String) : Option St :=
+  match t.splitOn "/" with
+  | [a, b, c] =>
+    let s : St := { init := if a == "-" then none else some a, initd := b == "1", level := c }
+    if showSt s == t then some s else none
+  | _ => none
 
-def wCode (w : String) : Option Int :=
-  if w.startsWith "e" then (((w.drop 1).toString).splitOn ":").head!.toInt? else none
+/-- The implementation's observation, typed. -/
+def parseObs (impl : String) : Obs :=
+  if impl == "panic" then .panic
+  else if impl == "stuck" then .stuck
+  else match field "w" impl, field "mw" impl, field "uh" impl, (field "st" impl).bind parseSt with
+    | some w, some mw, some uh, some st => .seen { w := parseW w, mw := mw != "-", uh := uh != "-", st := st }
+    | _, _, _, _ => .unreadable
 
-/-- Known crash shapes (DESIGN §6): the clause names the defect when the envelope has exactly that shape. -/
-def crashClause (m : Msg) : String :=
-  let null (p : String) := m.muts.contains (p ++ ":null") || m.muts.contains (p ++ ":absent")
-  if m.side == "s" && m.mname == "tools/call" && m.muts.contains "arguments:null" then
-    "C02: F12 server crash: tools/call with \"arguments\":null on a typed tool whose input schema declares a default"
-  else if m.side == "c" && m.mname == "elicitation/create" && (m.req.params == .absent || m.req.params == .null) then
-    "C02: F13 client crash: elicitation/create without params"
-  else if m.side == "c" && m.mname == "notifications/elicitation/complete" && (m.req.params == .absent || m.req.params == .null) then
-    "C02: F13 client crash: notifications/elicitation/complete without params"
-  else if m.side == "c" && m.mname == "sampling/createMessage" && null "messages.0" then
-    "C02: F13 client crash: sampling/createMessage with a null element in messages"
-  else s!"C02: process crash (panic) while handling {m.mname} on side {m.side}"
+/-- The texts a clause quotes: the raw fields of this observation and the previous session state. -/
+structure Raw where
+  w : String
+  mw : String
+  uh : String
+  st : String
+  prevSt : String
 
-/-- The property's answer for an envelope, given only the implementation's own previous session
-state. `none` = any single answer (the handler decides). Precedence as documented in Props.lean:
-per-request metadata, then version, then the lifecycle gate, then method / id / params checks. -/
-def acceptedBy (tv : List String) (m : Msg) : Bool :=
-  -- the property after the F34 repair: the version named by `_meta` must be one the session's transport
-  -- serves; the server/discover probe only has to name one the SDK knows
-  if m.mname == "server/discover" then supportedProtocolVersions.contains (metaVersion m.req)
-  else tv.contains (metaVersion m.req)
+def sideTok : Side → String
+  | .server => "s"
+  | .client => "c"
 
-def specWire (tv : List String) (prevInit : Bool) (m : Msg) : Option String :=
-  let r := m.req
-  let tbl := if m.side == "s" then serverMethodInfos else clientMethodInfos
-  let flags := r.method.bind (lookup tbl)
-  let rej (c : Int) : Option String := some (if r.hasId then s!"e{c}" else "none")
-  let new := m.side == "s" && usesNew r
-  if preemptDrops r then some "none"
-  else if new && !metaComplete r then rej (-32602)
-  else if new && !acceptedBy tv m then
-    some (if r.hasId then s!"e-32022:{",".intercalate tv}" else "none")
-  else if new && specRemoved.contains m.mname then rej (-32601)
-  else if m.side == "s" && !new && m.mname == "server/discover" then rej (-32601)
-  else if m.side == "s" && !new && !prevInit && !(["initialize", "notifications/initialized", "ping"].contains m.mname) then rej 0
-  else match flags with
-    | none => rej (-32601)
-    | some f =>
-      if f.notification && r.hasId then rej (-32600)
-      else if !f.notification && !r.hasId then some "none"
-      else if !f.missingParamsOK && (r.params == .absent || r.params == .null) then rej (-32600)
-      else if r.params == .objUndecodable || r.params == .wrongType then rej (-32602)
-      else if !r.hasId then some "none"
-      else none
-
-def monitor (mon : Mon) (m : Msg) (impl : String) : Option String :=
-  let r := m.req
-  if mon.dead then none
-  else if impl == "panic" then some (crashClause m)
-  else if impl == "stuck" then some "C02: session torn down (the implementation stopped reading)"
-  else
-  match field "w" impl, field "mw" impl, field "uh" impl, field "st" impl with
-  | some w, some mw, some uh, some st =>
-    let prevInit := stInit mon.prevSt
-    let new := m.side == "s" && usesNew r
-    -- ---------------- C02: one answer per call, none per notification
-    if r.hasId && w == "none" then some "C02: call not answered (dropped)"
-    else if w.startsWith "multi" then some "C02: call answered more than once"
-    else if w.startsWith "stray" then some "C02: response bearing an id that was not the request's"
-    else if !r.hasId && w != "none" then some "C02: notification answered"
-    else if w == "malformed" then some "C02: response with neither result nor error"
-    else
-    -- ---------------- C06 (server side)
-    let c06 : Option String :=
-      if m.side != "s" then none
-      else if !new && !prevInit && (mw != "-" || uh != "-") && !preInitAllowed.contains m.mname then
-        some (if f4Methods.contains m.mname
-              then s!"C06: F4 {m.mname} served before initialize (it sits in the exempt arm of the gate switch)"
-              else s!"C06: {m.mname} reached a handler before initialize was accepted")
-      else if !new && !prevInit && f4Methods.contains m.mname && r.hasId && w != "e0" then
-        some s!"C06: F4 {m.mname} passed the gate before initialize (answered {w} instead of the not-initialized refusal)"
-      else if !new && !prevInit && st != mon.prevSt && m.mname != "initialize" then
-        some s!"C06: session state changed before initialize by {m.mname}"
-      else if !new && !mon.opened && (mw != "-" || uh != "-" || (r.hasId && w == "ok")) && !preInitAllowed.contains m.mname then
-        some s!"C06: {m.mname} was served although no initialize has been accepted on this session (every initialize so far was answered with an error, and no request carried valid per-request metadata)"
-      else if m.mname == "initialize" && prevInit && w == "ok" then some "C06: second initialize accepted"
-      else if m.mname == "initialize" && prevInit && st != mon.prevSt then some "C06: second initialize changed session state"
-      else if m.mname == "initialize" && w != "ok" && st != mon.prevSt then
-        some s!"C06: rejected initialize changed session state (it was answered {w}, not accepted, yet the session state went from {mon.prevSt} to {st})"
-      else if m.mname == "notifications/initialized" && (!prevInit || stInitd mon.prevSt) && (uh != "-" || st != mon.prevSt) then
-        some "C06: premature or repeated initialized notification accepted (handler ran or state changed)"
-      else if m.mname == "ping" && !new && r.hasId && (r.params != .objUndecodable && r.params != .wrongType) && w != "ok" then
-        some "C06: ping not served"
-      else if new && !metaComplete r && (mw != "-" || uh != "-" || st != mon.prevSt || (r.hasId && w != "e-32602")) then
-        some "C06: request with incomplete per-request metadata was not refused with -32602 (or had an effect)"
-      else if new && metaComplete r && m.mname != "server/discover" && supportedProtocolVersions.contains (metaVersion r) &&
-          !mon.tv.contains (metaVersion r) &&
-          (mw != "-" || uh != "-" || st != mon.prevSt || (r.hasId && w != s!"e-32022:{",".intercalate mon.tv}")) then
-        some s!"C06: F34 {m.mname} whose _meta names {metaVersion r}, a version the session's transport does not serve (it serves {showVersions mon.tv}), was not refused with -32022 listing the transport's versions: answered {w}, handlers mw={mw} uh={uh}, session state {mon.prevSt} -> {st}"
-      else if new && metaComplete r && !acceptedBy mon.tv m && mw == "-" && uh == "-" && st == mon.prevSt && r.hasId &&
-          w == s!"e-32022:{",".intercalate supportedProtocolVersions}" && w != s!"e-32022:{",".intercalate mon.tv}" then
-        some s!"C06: F34 unsupported per-request version refused with -32022 listing the SDK's versions instead of the versions the session's transport serves ({showVersions mon.tv})"
-      else if new && metaComplete r && !acceptedBy mon.tv m &&
-          (mw != "-" || st != mon.prevSt || (r.hasId && w != s!"e-32022:{",".intercalate mon.tv}")) then
-        some "C06: unsupported per-request version not answered with -32022 listing the supported versions"
-      else if new && metaComplete r && acceptedBy mon.tv m && specRemoved.contains m.mname &&
-          (mw != "-" || (r.hasId && w != "e-32601")) then
-        some s!"C06: {m.mname} is removed from the 2026-07-28 protocol but was not answered method-not-found"
-      else if m.mname == "server/discover" && !new && (mw != "-" || (r.hasId && w != "e-32601")) then
-        some "C06: server/discover served to a legacy request"
-      else none
-    match c06 with
-    | some c => some c
-    | none =>
-      -- ---------------- C02: the code mapping
-      match specWire mon.tv prevInit m with
-      | none => none
-      | some want =>
-        if w == want then none
-        else if m.mname == "initialize" && (r.params == .null || r.params == .objUndecodable || r.params == .wrongType) && w == "e0" then
-          some s!"C02: F16 initialize with null or undecodable params answered with code 0 instead of {want} (its own unmarshalParams wraps no coded error)"
-        else if m.mname == "notifications/cancelled" && r.hasId then
-          some s!"C02: F17 id on notifications/cancelled answered {w} by the cancellation preempter instead of {want}"
-        else some s!"C02: {m.mname} ({repr r.params}, id={r.hasId}) answered {w}, the property requires {want}"
-  | _, _, _, _ => some "C02: unreadable observation"
+def clauseText (m : Msg) (mon : Mon) (x : Raw) : Clause → String
+  | .dropped => "C02: call not answered (dropped)"
+  | .multi => "C02: call answered more than once"
+  | .stray => "C02: response bearing an id that was not the request's"
+  | .notifAnswered => "C02: notification answered"
+  | .malformed => "C02: response with neither result nor error"
+  | .f12 => "C02: F12 server crash: tools/call with \"arguments\":null on a typed tool whose input schema declares a default"
+  | .f13Elicit => "C02: F13 client crash: elicitation/create without params"
+  | .f13ElicitComplete => "C02: F13 client crash: notifications/elicitation/complete without params"
+  | .f13Sampling => "C02: F13 client crash: sampling/createMessage with a null element in messages"
+  | .crash => s!"C02: process crash (panic) while handling {m.mname} on side {sideTok m.side}"
+  | .tornDown => "C02: session torn down (the implementation stopped reading)"
+  | .unreadable => "C02: unreadable observation"
+  | .f4Served => s!"C06: F4 {m.mname} served before initialize (it sits in the exempt arm of the gate switch)"
+  | .servedBeforeInit => s!"C06: {m.mname} reached a handler before initialize was accepted"
+  | .f4Passed => s!"C06: F4 {m.mname} passed the gate before initialize (answered {x.w} instead of the not-initialized refusal)"
+  | .stateBeforeInit => s!"C06: session state changed before initialize by {m.mname}"
+  | .servedUnopened => s!"C06: {m.mname} was served although no initialize has been accepted on this session (every initialize so far was answered with an error, and no request carried valid per-request metadata)"
+  | .secondInitAccepted => "C06: second initialize accepted"
+  | .secondInitState => "C06: second initialize changed session state"
+  | .rejectedInitState => s!"C06: rejected initialize changed session state (it was answered {x.w}, not accepted, yet the session state went from {x.prevSt} to {x.st})"
+  | .initializedAccepted => "C06: premature or repeated initialized notification accepted (handler ran or state changed)"
+  | .pingNotServed => "C06: ping not served"
+  | .incompleteMeta => "C06: request with incomplete per-request metadata was not refused with -32602 (or had an effect)"
+  | .f34NotRefused => s!"C06: F34 {m.mname} whose _meta names {metaVersion m.req}, a version the session's transport does not serve (it serves {showVersions mon.tv}), was not refused with -32022 listing the transport's versions: answered {x.w}, handlers mw={x.mw} uh={x.uh}, session state {x.prevSt} -> {x.st}"
+  | .f34SdkList => s!"C06: F34 unsupported per-request version refused with -32022 listing the SDK's versions instead of the versions the session's transport serves ({showVersions mon.tv})"
+  | .unsupportedVersion => "C06: unsupported per-request version not answered with -32022 listing the supported versions"
+  | .removedMethod => s!"C06: {m.mname} is removed from the 2026-07-28 protocol but was not answered method-not-found"
+  | .discoverLegacy => "C06: server/discover served to a legacy request"
+  | .f16 want => s!"C02: F16 initialize with null or undecodable params answered with code 0 instead of {showW want} (its own unmarshalParams wraps no coded error)"
+  | .f17 want => s!"C02: F17 id on notifications/cancelled answered {x.w} by the cancellation preempter instead of {showW want}"
+  | .codeWrong want => s!"C02: {m.mname} ({repr m.req.params}, id={m.req.hasId}) answered {x.w}, the property requires {showW want}"
 
 /-! ## engine -/
 
 structure DState where
   st : State := {}
   mon : Mon := {}
+  prevRaw : String := "-/0/"   -- the previous observation's `st` field as printed (quoted by clause texts)
   pid : String := ""     -- property under check (`property <PID>` record): only its clauses are reported
 
-/-- One stream serves C06 and C02: every clause starts with its property id, and a run for one
-property reports that property's clauses only. -/
-def forProperty (pid : String) (c : Option String) : Option String :=
+def pidTok : PID → String
+  | .C02 => "C02"
+  | .C06 => "C06"
+
+/-- One stream serves C06 and C02: every clause belongs to one property, and a run for one property
+reports that property's clauses only. -/
+def forProperty (pid : String) (c : Option Clause) : Option Clause :=
   match c with
-  | some cl => if pid == "" || cl.startsWith (pid ++ ":") then some cl else none
+  | some cl => if pid == "" || pid == pidTok cl.pid then some cl else none
   | none => none
 
 def engine : Engine DState where
@@ -323,22 +270,19 @@ def engine : Engine DState where
       | none => (d, { model := "bad-op" })
       | some m =>
         let r := m.req
-        let (st', o) := if m.side == "s" then admitReq d.st r else (d.st, admitClient r)
+        let (st', o) := if m.side == .server then admitReq d.st r else (d.st, admitClient r)
         let mw := match o with | .invoked h _ => h.name | _ => "-"
         let w := fillW r (showAnswer (answer r o)) (field "w" impl)
         let uh := fillUH (expectedUH m.side r o) (field "uh" impl)
-        let stS := if m.side == "s" then showState st' else "-/0/"
-        let rv := if m.side == "s" then (match resultInfo d.st r o with | some x => (if x == "" then "-" else x) | none => "-") else "-"
+        let stS := if m.side == .server then showState st' else "-/0/"
+        let rv := if m.side == .server then (match resultInfo d.st r o with | some x => (if x == "" then "-" else x) | none => "-") else "-"
         let model := s!"w={w} mw={mw} uh={uh} st={stS} rv={rv}"
-        let viol := forProperty d.pid (monitor d.mon m impl)
-        let isObs := (field "st" impl).isSome
-        let mon' : Mon :=
-          if !isObs then { d.mon with dead := true }
-          else
-            let validMeta := m.side == "s" && usesNew r && metaComplete r && acceptedBy d.mon.tv m
-            let accepted := m.side == "s" && m.mname == "initialize" && field "w" impl == some "ok"
-            { d.mon with prevSt := (field "st" impl).getD d.mon.prevSt, opened := d.mon.opened || validMeta || accepted }
-        ({ d with st := st', mon := mon' }, { model := model, violated := viol })
+        let obs := parseObs impl
+        let raw : Raw := { w := (field "w" impl).getD "", mw := (field "mw" impl).getD "", uh := (field "uh" impl).getD "",
+                           st := (field "st" impl).getD "", prevSt := d.prevRaw }
+        let viol := (forProperty d.pid (monitor d.mon m obs)).map (clauseText m d.mon raw)
+        let prevRaw' := match obs with | .seen _ => raw.st | _ => d.prevRaw
+        ({ d with st := st', mon := monNext d.mon m obs, prevRaw := prevRaw' }, { model := model, violated := viol })
 
 end Gate
 
